@@ -227,7 +227,17 @@ MSG_APIS = [
     "write_traceback",
     "MessageType().write",
 ]
-ACT_STYLES = ["with", "context+finish", "run+finish", "start_task", "log_call", "finish-in-context"]
+ACT_STYLES = [
+    "with",
+    "context+finish",
+    "run+finish",
+    "start_task",
+    "log_call",
+    "finish-in-context",
+    "remote:immediate,bytes-id",
+    "remote:deferred,str-id",
+]
+REMOTE_STYLES = (6, 7)
 
 # Default attribute schema (name, number of values).  Checks pass their own
 # restriction of it.
@@ -247,13 +257,18 @@ SCHEMA = {
 
 def valid_default(prog):
     """Skip attribute combinations that merely duplicate another program."""
+    for top in prog:
+        if top[0] == "a" and top[1].get("style", 0) in REMOTE_STYLES:
+            return False  # nothing to continue at top level
     for nd in walk(prog):
         a = nd[1]
         if nd[0] == "a":
             if a.get("style", 0) == 4 and a.get("typed", 0):
                 return False  # log_call has no typed variant
-            if a.get("exit", 0) and a.get("ef", 0):
-                pass  # success fields on a failing action: must not leak
+            if a.get("style", 0) in REMOTE_STYLES and (
+                a.get("typed", 0) or a.get("at", 0)
+            ):
+                return False  # remote continuation has a fixed type here
         else:
             if a.get("api", 0) in (4, 5, 6) and a.get("mt", 0):
                 return False  # typed / traceback messages have a fixed type
@@ -287,6 +302,8 @@ class Interp(object):
         self.probe = probe
         self.in_flight = None
         self.serial = 0
+        self.deferred = []
+        self.task_ids = []
 
     # -- helpers
     def _attach(self, ref, new_root=False):
@@ -318,6 +335,8 @@ class Interp(object):
                 self.in_flight = None
             if self.probe:
                 self.probe(self, "after-top", stmt)
+        while self.deferred:
+            self.deferred.pop(0)()
         return self.forest
 
     def exec_block(self, stmts):
@@ -487,6 +506,9 @@ class Interp(object):
                 ok()
             return
 
+        if style in REMOTE_STYLES:
+            return self.exec_remote(s, ref, body, ok, failed, sf, end_args)
+
         new_root = style == 3
         self._attach(ref, new_root=new_root)
         if style == 3:
@@ -572,6 +594,56 @@ class Interp(object):
                     raise e_seen
         finally:
             self.stack.pop()
+
+    def exec_remote(self, s, ref, body, ok, failed, sf, end_args):
+        """Hand work to 'another thread/process': reserve a position in the
+        current action, continue the task in a separate context."""
+        import contextvars
+        from eliot import Action
+
+        cur = current_action()
+        if cur is None:
+            # nothing to continue (e.g. under a failed-over context); run as a
+            # plain with-action instead so the program stays meaningful
+            raise RuntimeError("remote statement without current action")
+        tid = cur.serialize_task_id()
+        self.task_ids.append(tid)
+        style = s[1].get("style", 0)
+        if style == 7:
+            tid = tid.decode("ascii")
+        ref["type"] = "eliot:remote_task"
+        ref["start"] = dict(sf)
+        ref["remote"] = True
+        self._attach(ref)
+        xf = s[1].get("xf", 0)
+
+        def remote():
+            saved = self.stack
+            self.stack = [ref]
+            try:
+                try:
+                    with Action.continue_task(task_id=tid, **sf) as action:
+                        if end_args:
+                            action.add_success_fields(**end_args)
+                        body()
+                except BaseException as e:
+                    if not getattr(e, "_vk", False):
+                        raise
+                    if e is not self.in_flight:
+                        self.problem("exception-identity", {"stmt": s})
+                    self.in_flight = None
+                    failed(e)
+                    self._extra_finish(action, xf)
+                else:
+                    ok()
+                    self._extra_finish(action, xf)
+            finally:
+                self.stack = saved
+
+        if style == 7:
+            self.deferred.append(lambda: contextvars.Context().run(remote))
+        else:
+            contextvars.Context().run(remote)
 
     def _extra_finish(self, action, xf):
         if xf == 1:
